@@ -4,9 +4,11 @@ Property theorems only (model: Model/Dep02.lean over Model/Dep.lean; helper lemm
 
 The chain  table entry → `Factory.create_dependency` → `Dependency.marker` → `Metadata.from_package` → `to_pep_508`
 is proved by composition: the marker of the dependency object holds in an environment exactly when the declared
-`markers`, `python` and `platform` conditions do (`dependency_marker_faithful`), from C11 (`createNested_exact`,
-`parseMarker_sem`) and C07 (`mIntersect_sound`), relative to the same two leaf-level hypotheses those theorems have
-(`LeafSpec`, `CompactAgree`) and to the reference value of the `sys_platform` text.  The printed line is the base
+`markers`, `python` and `platform` conditions do (`dependency_marker_faithful`), from C11 (`createNested_syn`,
+`createNested_poetry_of_agree`, `parseMarker_sem` in Proofs/PyConvPoetry.lean) and C07 (`mIntersect_sound`), relative
+to the leaf specification `LeafSpec` and the compaction agreement `CompactAgree` (for the python clause the latter is
+proved in C11, `compactSub_agree`; it stays a hypothesis here because the declared `markers` text and the
+`sys_platform` clause are arbitrary texts) and to the reference value of the `sys_platform` text.  The printed line is the base
 requirement followed by ` ; ` and the marker's text (`requires_dist_line_shape`); that this text has the marker's truth
 for the reference is C13's print/parse theorem and enters `requiresDist_faithful_partial` as the named hypothesis
 `PrintFaithful`; the version part is C15's.  Selection (`no_nonoptional_dropped`, `empty_marker_never_unconditional`),
